@@ -23,6 +23,7 @@ const baseText = `module a { namespace "urn:a"; prefix a;
  grouping g { leaf gl { type string; default gd; } leaf-list gll { type string; default "1"; default "2"; default "3"; } list gli { key k; leaf k { type string; } max-elements 9; } }
  leaf l { type string; default d; units u; } leaf n { type string; } leaf m { type string; mandatory true; }
  leaf-list ll { type string; min-elements 1; max-elements 5; } list li { key k; leaf k { type string; } }
+ leaf-list ul { type string { length "1..4"; pattern "a+"; } ordered-by user; max-elements 5; description "user ordered"; } list uli { key k; leaf k { type string; } ordered-by user; min-elements 1; unique "v"; leaf v { type int8 { range "1..5"; } units vu; } }
  container c { config false; leaf x { type string; } container cc { leaf y { type int8; default 4; } } }
  choice ch { default s1; leaf s1 { type string; } case c2 { leaf s2 { type string; } } }
  anydata ad;
@@ -39,7 +40,7 @@ const augText = `module g { namespace "urn:g"; prefix g; import a { prefix a; }
 
 var baseFiles = []dump.File{{Name: "a.yang", Text: baseText}, {Name: "g.yang", Text: augText}}
 
-var targets = []string{"l", "n", "m", "ll", "li", "c", "c/x", "c/cc/y", "ch", "ad", "u1/gl", "u1/gll", "u1/gli", "r/input/i", "r/input", "nope", "c/nope", "c/g:ay", "c/g:all", "u1/g:ac/g:az",
+var targets = []string{"l", "n", "m", "ll", "li", "c", "c/x", "c/cc/y", "ch", "ad", "u1/gl", "u1/gll", "u1/gli", "r/input/i", "r/input", "nope", "c/nope", "c/g:ay", "c/g:all", "u1/g:ac/g:az", "ul", "uli", "uli/v",
 	// nodes named like statement keywords: a container called input with a leaf called output, outside any rpc
 	"input", "input/output"}
 
@@ -341,6 +342,47 @@ func diff(want, got *node, dc map[string]bool) []string {
 
 type fail struct{ fp, exp, obs string }
 
+// rest renders what a deviation of properties must leave alone on its own target: everything the
+// node shows except config, mandatory, default, units and the element bounds (those are compared
+// one by one against the reference) - kind, key, ordering, description, prefix, namespace, parent,
+// extensions and the other substatements kept in Extra, and, unless
+// the type itself is deviated, the whole resolved type.
+func rest(e *yang.Entry, withType bool) string {
+	var sb strings.Builder
+	fmt.Fprintf(&sb, "kind=%v key=%q desc=%q", e.Kind, e.Key, e.Description)
+	if e.ListAttr != nil {
+		ob := "<none>"
+		if e.ListAttr.OrderedBy != nil {
+			ob = e.ListAttr.OrderedBy.Name
+		}
+		fmt.Fprintf(&sb, " ordered-by-user=%v ordered-by=%s", e.ListAttr.OrderedByUser, ob)
+	}
+	if e.Prefix != nil {
+		fmt.Fprintf(&sb, " prefix=%s", e.Prefix.Name)
+	}
+	if ns := e.Namespace(); ns != nil {
+		fmt.Fprintf(&sb, " ns=%s", ns.Name)
+	}
+	if e.Parent != nil {
+		fmt.Fprintf(&sb, " parent=%s", e.Parent.Name)
+	}
+	// (which children it has is the frame's business: another deviation may remove one)
+	fmt.Fprintf(&sb, " dir=%v errors=%d", e.Dir != nil, len(e.Errors))
+	for _, x := range e.Exts {
+		fmt.Fprintf(&sb, " ext:%s=%s", x.Keyword, x.Argument)
+	}
+	var xs []string
+	for k, v := range e.Extra {
+		xs = append(xs, fmt.Sprintf("%s*%d", k, len(v)))
+	}
+	sort.Strings(xs)
+	fmt.Fprintf(&sb, " extra=%v", xs)
+	if withType && e.Type != nil {
+		fmt.Fprintf(&sb, " type=%s", dump.Type(e.Type, 0))
+	}
+	return sb.String()
+}
+
 var baseMS *yang.Modules
 var baseFlat map[string]string // path -> one-line dump of the node alone
 
@@ -462,6 +504,7 @@ func checkOrder(in Input, reverse bool) (f *fail, wantErr bool) {
 		})
 		want := map[string]*node{}
 		dc := map[string]map[string]bool{}
+		typeNamed := map[string]bool{}
 		anyDC := false
 		for _, d := range devs {
 			n := want[d.Target]
@@ -495,6 +538,11 @@ func checkOrder(in Input, reverse bool) (f *fail, wantErr bool) {
 					// be applied (other kinds after not-supported are not generated)
 					wantErr = true
 					break
+				}
+				for _, p := range x.Props {
+					if p.K == "type" {
+						typeNamed[d.Target] = true
+					}
 				}
 				if apply(n, x, dc[d.Target]) {
 					wantErr = true
@@ -556,6 +604,11 @@ func checkOrder(in Input, reverse bool) (f *fail, wantErr bool) {
 			}
 			for _, x := range diff(n, observe(e), dc[t]) {
 				diffs = append(diffs, p+": "+x)
+			}
+			if be := find(baseMS, t); be != nil && !dc[t]["frame"] {
+				if was, now := rest(be, !typeNamed[t]), rest(e, !typeNamed[t]); was != now {
+					diffs = append(diffs, p+": a property no deviate statement names changed on the target:\n   was "+was+"\n   now "+now)
+				}
 			}
 			frameSkip[p] = true
 		}
